@@ -106,8 +106,14 @@ TraceNew ==
   /\ New(Ev.role, [k \in 1 .. Len(Ev.tx) - 1 |-> AppOp(Ev.tx[k])])
   /\ OpsMatch(Ev.tx, tr'[Ev.role])
 
+\* C15: the constant the harness attached to constrain(expr + c) is minus the meaning of the expression (plus the
+\* stated offset), the meaning being computed by the specification without reference to term lists
+ExprConstOk ==
+  (Ev.op = "expr" /\ Ev.role = "P" /\ Has(Ev, "c")) => Ev.c = Fadd(Fneg(Denote(cs.P, Ev.e)), Ev.d)
+
 TraceCall ==
   /\ IsEvent("call") /\ ~degen
+  /\ ExprConstOk
   /\ Call(Ev.role, CallOf(Ev))
   /\ CmpH => (out'.ret = Ev.ret /\ out'.err = Ev.err)
   /\ OpsMatch(Ev.tx, NewOps(Ev.role))
